@@ -74,6 +74,7 @@ def generate(ck):
     # a very long history at a drawdown of 1e-4 of the pressure level: convergence does not depend on how
     # many values have to be stored
     descs.append({"cls": "single", "table": {"kind": "synthetic", "family": "const-diffusivity", "prm": [0.3, 0.6, 0.2], "n": 200, "p_lo": 50.0, "p_hi": 9000.0, "grid": "uniform", "seed": 0}, "p_i": 8000.0, "p_f": 7999.2, "r": 34, "t_end": 2.0, "huge": True})
+    descs.append(dict(descs[0], with_fluid=True))
     descs.append(dict(descs[0], decoy=True, t_end=5.0))
     descs.append(dict(descs[3], decoy=True, t_end=4.0))
     n = 2 if ck.tier == "quick" else 200
@@ -179,7 +180,13 @@ def run_case(ck, desc):
         if desc.get("huge"):
             nt = 34 * nx + 1
             t = np.linspace(0, math.sqrt(t_end), nt) ** 2
-        res = IdealReservoir(nx, p_f, p_i, None) if cls == "ideal" else SinglePhaseReservoir(nx, p_f, p_i, fluid)
+        attached = None
+        if cls == "ideal" and desc.get("with_fluid", int(t_end * 1000) % 3 == 0):
+            # (an ideal reservoir that carries a real-gas table - for its density recovery - is the same ideal problem)
+            with warnings.catch_warnings():
+                warnings.simplefilter("ignore")
+                attached = FlowProperties(tables.shipped("pvt_gas"), p_i)
+        res = IdealReservoir(nx, p_f, p_i, attached) if cls == "ideal" else SinglePhaseReservoir(nx, p_f, p_i, fluid)
         sim.SIM_EVENTS.clear()
         sim.simulate(res, t, None)
         if len(sim.SIM_EVENTS) != 1:
